@@ -6,7 +6,8 @@ import session_checks as sc
 
 PROPS = ["C20"]
 SCENARIOS = ["timers_vs_inbound", "senders_vs_inbound_resend", "senders_vs_timers", "logon_vs_senders",
-             "logout_stop_vs_all", "registration_vs_dispatch", "silent_peer_disconnect", "resend_of_timer_messages"]
+             "logout_stop_vs_all", "registration_vs_dispatch", "silent_peer_disconnect", "resend_of_timer_messages",
+             "testrequest_answer_vs_queries"]
 LIB = "github.com/b2broker/simplefix-go"
 
 
@@ -15,10 +16,18 @@ def code_constants():
     src = open(os.path.join(REPO, "session", "session.go")).read()
     mem = open(os.path.join(REPO, "storages", "memory", "storage.go")).read()
     plain_state = len(re.findall(r"[^.\w]s\.state\b", src)) - len(re.findall(r"s\.state = ", src))
-    state_locked = "{\"stateMu\"}" if "func (s *Session) currentState()" in src or plain_state <= 1 else "{}"
+    state_locked = "{\"stateMu/r\"}" if "func (s *Session) currentState()" in src or plain_state <= 1 else "{}"
+    # every assignment to the state: which mode of stateMu was taken last before it in the same function?
+    modes = set()
+    for m in re.finditer(r"\bs\.state = ", src):
+        start = src.rfind("\nfunc ", 0, m.start())
+        body = src[start:m.start()]
+        locks = [(x.start(), x.group(1)) for x in re.finditer(r"stateMu\.(R?Lock)\(\)", body)]
+        modes.add(locks[-1][1] if locks else "none")
+    state_w = "{\"stateMu\"}" if modes <= {"Lock"} else ("{\"stateMu/r\"}" if "none" not in modes else "{}")
     settings_locked = "{\"Session.mu\"}" if re.search(r"s\.mu\.Lock\(\)\s*\n\s*s\.LogonSettings = ", src) else "{}"
     counter_atomic = "TRUE" if "atomic.LoadInt64(&s.counterOutgoing)" in mem else "FALSE"
-    return state_locked, settings_locked, counter_atomic
+    return state_locked, settings_locked, counter_atomic, state_w
 
 
 def parse_reports(text):
@@ -48,8 +57,8 @@ def check(prop, tier, seed):
     run = Run(prop, tier, seed)
     quick = tier == "quick"
     # (1) lockset check of the access table with the constants of today's code; pairs to exercise
-    st, se, ca = code_constants()
-    cfg = ("SPECIFICATION Spec\nCONSTANTS\n StateReadLocks = %s\n SettingsWriteLocks = %s\n CounterReadAtomic = %s\nINVARIANTS Emit Lockset\nCHECK_DEADLOCK FALSE\n" % (st, se, ca))
+    st, se, ca, sw = code_constants()
+    cfg = ("SPECIFICATION Spec\nCONSTANTS\n StateReadLocks = %s\n StateWriteLocks = %s\n SettingsWriteLocks = %s\n CounterReadAtomic = %s\nINVARIANTS Emit Lockset\nCHECK_DEADLOCK FALSE\n" % (st, sw, se, ca))
     res = tlc("Access", cfg, run.sub("mc-access"), ["Access.tla"], workers=1, timeout=600)
     pairs = {json.dumps(p, sort_keys=True): p for p in split_lines(res, "PAIR")}
     lockset_ok = res.ok
@@ -59,7 +68,7 @@ def check(prop, tier, seed):
     run.transitions += max(res.generated, 1)
     unprot = [p for p in pairs.values() if not p["protected"]]
     run.extra["access_table"] = {"conflicting_concurrent_pairs": len(pairs), "unprotected_in_model": len(unprot),
-                                 "constants": {"StateReadLocks": st, "SettingsWriteLocks": se, "CounterReadAtomic": ca},
+                                 "constants": {"StateReadLocks": st, "StateWriteLocks": sw, "SettingsWriteLocks": se, "CounterReadAtomic": ca},
                                  "lockset_invariant_holds": lockset_ok}
     covered = set()
     for p in pairs.values():
